@@ -755,6 +755,91 @@ def check_validators(ctx):
         ctx.ob("validator.super-chain", f, "%s._validate chains to %s" % (c.name, parent.qualname), okc, why)
 
 
+def check_pair_validator(ctx):
+    """DictProxy._validate hands back (the validated key, the validated value): component 0 of everything it returns is the
+    result of key_field.validate(cfg, key), component 1 the result of value_field.validate(cfg, value) -- not the raw key, not
+    the other component.  (Followed through locals, and through a local list filled by appends in order.)"""
+    an, model = ctx.an, ctx.model
+    f = model.method("DictProxy", "_validate")
+    g = an.cfg(f)
+    order = {id(n): i for i, n in enumerate(g.nodes)}
+    kparam, vparam = f.positional_params[1], f.positional_params[2]
+
+    def field_of(recv, at):
+        if isinstance(recv, ast.Attribute) and isinstance(recv.value, ast.Name) and recv.value.id == f.self_name:
+            return recv.attr
+        if isinstance(recv, ast.Name):
+            attrs = set()
+            for k, pl in value_sources(f, recv, at):
+                if k == "expr" and isinstance(pl, ast.Attribute) and isinstance(pl.value, ast.Name) and pl.value.id == f.self_name:
+                    attrs.add(pl.attr)
+                elif k == "unpack" and isinstance(pl[0], (ast.Tuple, ast.List)) and pl[1] is not None and pl[1] < len(pl[0].elts) \
+                        and isinstance(pl[0].elts[pl[1]], ast.Attribute):
+                    attrs.add(pl[0].elts[pl[1]].attr)
+                else:
+                    return None
+            return attrs.pop() if len(attrs) == 1 else None
+        return None
+
+    def describe(e, at, depth=0):
+        """set of (field attr, input param) pairs the expression is the validation result of; None in the set = something else"""
+        if depth > 6:
+            return {None}
+        if isinstance(e, ast.Call) and isinstance(e.func, ast.Attribute) and e.func.attr == "validate" and len(e.args) >= 2:
+            nn = g.nodes_for(e)
+            fld = field_of(e.func.value, nn[0] if nn else at)
+            srcs = value_sources(f, e.args[1], nn[0] if nn else at)
+            inp = {pl if k == "param" else None for k, pl in srcs}
+            return {(fld, inp.pop() if len(inp) == 1 else None)}
+        if isinstance(e, ast.Name):
+            out = set()
+            for k, pl in value_sources(f, e, at):
+                if k == "expr" and isinstance(pl, ast.AST) and pl is not e:
+                    out |= describe(pl, None, depth + 1)
+                elif k == "unpack" and isinstance(pl[0], (ast.Tuple, ast.List)) and pl[1] is not None and pl[1] < len(pl[0].elts):
+                    out |= describe(pl[0].elts[pl[1]], pl[2], depth + 1)
+                elif k == "unpack" and isinstance(pl[0], ast.Name) and pl[1] is not None:
+                    # a, b = acc   (acc: a local list filled by appends)
+                    out |= describe(ast.Subscript(value=pl[0], slice=ast.Constant(value=pl[1]), ctx=ast.Load()), pl[2], depth + 1)
+                else:
+                    out.add(None)
+            return out or {None}
+        if isinstance(e, ast.Subscript) and isinstance(e.value, ast.Name) and isinstance(e.slice, ast.Constant) and isinstance(e.slice.value, int):
+            # acc[i] of a local list: the i-th append in program order
+            apps = sorted([n for n in g.nodes if n.kind == "call" and isinstance(n.ast.func, ast.Attribute) and n.ast.func.attr == "append"
+                           and isinstance(n.ast.func.value, ast.Name) and n.ast.func.value.id == e.value.id and n.ast.args], key=lambda n: order[id(n)])
+            if 0 <= e.slice.value < len(apps):
+                return describe(apps[e.slice.value].ast.args[0], apps[e.slice.value], depth + 1)
+        return {None}
+    nret = 0
+    for r in returns_of(an, f):
+        v = r.ast.value
+        comps = None
+        if isinstance(v, ast.Tuple) and len(v.elts) == 2:
+            comps = [(v.elts[0], r), (v.elts[1], r)]
+        elif isinstance(v, ast.Name):
+            ss = value_sources(f, v, r)
+            if len(ss) == 1 and ss[0][0] == "expr" and isinstance(ss[0][1], ast.Tuple) and len(ss[0][1].elts) == 2:
+                comps = [(ss[0][1].elts[0], None), (ss[0][1].elts[1], None)]
+        nret += 1
+        if comps is None:
+            ctx.ob("pair.returns-validated", f, r.ast, False, "DictProxy._validate does not return a (key, value) pair", node=r)
+            continue
+        want = [("key_field", kparam), ("value_field", vparam)]
+        bad = None
+        for i, (ce, at) in enumerate(comps):
+            d = describe(ce, at)
+            if d != {want[i]}:
+                bad = "component %d (%s) is %s, not the result of self.%s.validate(cfg, %s)" % (
+                    i, "key" if i == 0 else "value", "the unvalidated " + ast.unparse(ce) if d == {None} else
+                    "validated by %s" % sorted(str(x) for x in d), want[i][0], want[i][1])
+                break
+        ctx.ob("pair.returns-validated", f, r.ast, bad is None,
+               "returns (key_field.validate(key), value_field.validate(value))" if bad is None else
+               "DictProxy._validate: %s -- the dict stores something its field never normalised" % bad, node=r)
+    ctx.need(nret >= 1, "DictProxy._validate has no return")
+
+
 def check_validate_chain(ctx):
     """Field.validate (and overrides): non-None values go through self._validate on every path and
     the result (or the custom validator's result) is what is returned."""
@@ -997,6 +1082,7 @@ def check(ctx):
     check_container_validators(ctx)
     check_shared_constraints(ctx)
     check_validate_chain(ctx)
+    check_pair_validator(ctx)
     check_load_tree(ctx)
     check_override(ctx)
     check_taint(ctx)
